@@ -21,6 +21,7 @@ RLIMIT = 300
 MIN_FUNCTIONS = 1
 
 ASSUMPTIONS = {
+    "nondet": "a dropped condition may go either way",
     "axiom_clen": "char::len_utf8 is between 1 and 4, and 1 for ASCII", "axiom_clen16": "-", "axiom_len_bound": "a str is at most isize::MAX bytes long",
     "vt_len": "-", "vt_slice": "-", "vt_slice_from": "-", "vt_find_char": "-", "vt_rfind_char": "-", "vt_utf16_count": "-",
     "vtc_len_utf8": "-", "vtc_len_utf16": "-", "vu_min": "-", "CharIndices": "-", "vt_char_indices": "-", "next": "-",
@@ -159,6 +160,9 @@ FORMAT_PROGRAMS = [
     'let s = "x\n  y" fun f() {}\nprintln(s)\n',
     'let x\n = 1\nlet y\n = 2\nfun f() {}\n"a\nb"\n',
     'let a = "1\n2" struct P { x: Int }\nlet b = "3\n\n4" enum E { A }\nprintln(a ^ b)\n',
+    # aligned columns and padding inside the arms of a match (span edits pushed while a `match` is traversed)
+    'fun price(o: Option<Int>): Int {\n  match o {\n    Some(q) => {\n      let unit    = 12\n      let postage =  3\n      q  *  unit + postage\n    }\n    None => {   0 }\n  }\n}\nfun plain(q: Int): Int {\n  let unit    = 12\n  q  *  unit\n}\nprintln(string_repr(price(Some(2)) + plain(1)))\n',
+    'fun nested(a: Option<Option<Int>>): Int {\n  match a {\n    Some(b) => match b {\n      Some(c) => { let d   =   c   c  +  d }\n      None => { 1 }\n    }\n    None => 0\n  }\n}\nprintln(string_repr(nested(Some(Some(2)))))\n',
 ]
 BOUNDED = [
     {"name": "format_corpus", "kind": "format-corpus", "props": ["C17"], "input": FORMAT_PROGRAMS, "globs": ["src/test_files/**/*.gdn", "src/*.gdn"], "max_files": 600,
@@ -174,6 +178,66 @@ WITNESSES = [
 import findings  # noqa: E402
 for _fn, _fi, _fb in findings.C17_FORMAT:
     BOUNDED.append({"name": _fn, "kind": "format-corpus", "props": ["C17"], "input": [_fi], "n_inputs": 1, "timeout": 60, "bound": _fb + ": the formatted text parses to the same syntax tree with the same comments", "expect": {}})
+
+
+TRAVERSE = r"\bself\s*\.\s*visit_expr\s*\(\s*scrutinee\s*\)|\bself\s*\.\s*visit_expr_\s*\(\s*&\s*expr\s*\.\s*expr_\s*\)"
+
+
+def _traversal_slice(u, props):
+    """IndentationVisitor::visit_expr (src/format.rs) pushes the span edits of an expression's children while it
+    traverses them.  apply_span_edits requires pairwise separate edits (proved above to be needed: the same edit
+    applied twice eats the text next to the gap), so the children must be traversed once: on every path through
+    visit_expr at most one of `self.visit_expr(scrutinee)` (the special case for `match`) and
+    `self.visit_expr_(&expr.expr_)` (the default traversal of all children) is reached, and at most once."""
+    from gen import Tag
+    from extract import ExtractError, skeleton_hash
+    from slicer import Slicer
+
+    class TraverseSlicer(Slicer):
+        def __init__(self, src_):
+            Slicer.__init__(self, src_, TRAVERSE, flag_rx=r"\bno_such_flag_zz\b")
+            self.ret = "return;"
+            self.n_calls = 0
+
+        def render_effect(self, m):
+            self.n_calls += 1
+            return "proof { assert(traversed == 0); traversed = traversed + 1; }"
+
+    src = u.source(FM)
+    host = src.find_fn("visit_expr", impl="Visitor for IndentationVisitor")
+    toks = src.toks
+    idx = [k for k, t in enumerate(toks) if host.start <= t.start < host.end]
+    depth, k0 = 0, None
+    for k in idx:
+        tt = toks[k].text
+        if toks[k].kind == "punct" and tt in "([":
+            depth += 1
+        elif toks[k].kind == "punct" and tt in ")]":
+            depth -= 1
+        elif tt == "{" and depth == 0:
+            k0 = k
+            break
+    sl = TraverseSlicer(src)
+    sl.block(k0 + 1, sl.close(k0), "    ")
+    if sl.n_calls < 2:
+        raise ExtractError("IndentationVisitor::visit_expr: the two traversal calls were not found (%d)" % sl.n_calls)
+    gname = "slice_indentation_visit_expr_traverses_children_once"
+    u.fn_props[gname] = props
+    u.safety_props[gname] = props
+    u.skeletons[gname] = skeleton_hash(host.text)
+    u.items.append({"name": "IndentationVisitor::visit_expr (traversal slice: %d traversal calls)" % sl.n_calls, "generated_as": gname, "kind": "slice",
+                    "where": host.where, "sha256_16": host.sha(), "skeleton": u.skeletons[gname]})
+    tag = Tag("repo", fn=gname, repo_file=FM, repo_line=host.line0, props=props)
+    u.raw("#[verifier::external_body] pub fn nondet() -> (r: bool) { unimplemented!() }", kind="prelude")
+    u.raw("#[verifier::exec_allows_no_decreases_clause]", fn=gname, props=props)
+    u.emit("pub fn %s()" % gname, tag)
+    u.emit("{", tag)
+    u.emit("    let ghost mut traversed: int = 0;", Tag("glue", fn=gname, props=props))
+    for (t, ln) in sl.out:
+        t = re.sub(r"^(\s*)(while nondet\(\) \{|loop \{)\s*$", r"\1#[verifier::loop_isolation(false)] \2", t)
+        u.emit(t, Tag("repo", fn=gname, repo_file=FM, repo_line=ln, props=props))
+    u.emit("}", tag)
+    u.clauses.append(("fmtedits.%s.safety@assert" % gname, props, "no traversal of the children has happened when a traversal call is reached"))
 
 
 def build(tier):
@@ -288,6 +352,7 @@ proof {
                        decreases="ts0.len() - __i1")},
         hints=[dict(anchor="let mut tokens", where="before", name="lexed", text="let ghost ts0 = token_stream.tokens@;")],
         props={"C17"}))
+    _traversal_slice(u, {"C17"})
     u.add_canary_proof()
     u.raw(common.FOOTER)
     return u
